@@ -23,7 +23,7 @@ func checkC03(c *vkit.Ctx) {
 			continue
 		}
 		r := c.Rand("hist", i)
-		h := GenHistory(r, HistOpts{APIs: []string{"snap", "snap", "snap", "json", "yaml", "ssnap", "sjson"}, FailOps: true, NoHuge: true, Twins: true, Skips: true})
+		h := GenHistory(r, HistOpts{APIs: []string{"snap", "snap", "snap", "json", "yaml", "ssnap", "sjson"}, FailOps: true, NoHuge: true, Twins: true, Skips: true, Cleanups: true})
 		c.Guard(histSample(&h), func() { runC03(c, i, &h) })
 	}
 }
